@@ -80,6 +80,13 @@ def scan_accesses(func_node):
                     a = n.args[1]
                     if base and isinstance(a, ast.Constant) and isinstance(a.value, str):
                         out.append(Access(f"{base}.{a.value}", "load", n, stmt))
+                if (isinstance(f, ast.Attribute) and f.attr in ("get", "pop", "setdefault") and isinstance(f.value, ast.Attribute)
+                        and f.value.attr == "__dict__" and n.args and isinstance(n.args[0], ast.Constant)
+                        and isinstance(n.args[0].value, str)):
+                    # obj.__dict__.get("x") -> a read of obj.x
+                    base = access_path(f.value.value)
+                    if base:
+                        out.append(Access(f"{base}.{n.args[0].value}", "load" if f.attr == "get" else "mutate", n, stmt))
             if isinstance(n, ast.Compare) and len(n.ops) == 1 and isinstance(n.ops[0], (ast.In, ast.NotIn)):
                 # "state" in self.lexer.__dict__  -> a read of self.lexer.state
                 c = n.comparators[0]
@@ -264,6 +271,14 @@ class RBW:
                     if base and self.relevant(f"{base}.{n.left.value}"):
                         self._read(f, f"{base}.{n.left.value}", n, assigned, exposed)
         for n in nodes:
+            if isinstance(n, ast.Call):
+                fn = n.func
+                if (isinstance(fn, ast.Attribute) and fn.attr in ("get", "pop", "setdefault") and isinstance(fn.value, ast.Attribute)
+                        and fn.value.attr == "__dict__" and n.args and isinstance(n.args[0], ast.Constant)
+                        and isinstance(n.args[0].value, str)):
+                    base = access_path(fn.value.value)
+                    if base and self.relevant(f"{base}.{n.args[0].value}"):
+                        self._read(f, f"{base}.{n.args[0].value}", n, assigned, exposed)
             if isinstance(n, ast.Call):
                 fn = n.func
                 if isinstance(fn, ast.Name) and fn.id == "setattr":
